@@ -43,6 +43,17 @@ def dict_plan(kinds, small, large):
     return plan
 
 
+def scale_stage(kinds, cases_quick):
+    """size class 7: 140 000-280 000 strings, 1-4 MB of text, default MEMALLOC, mostly bucket size 2-4"""
+    def f(tier):
+        import os
+        only = os.environ.get("VERIF_KINDS")
+        ks = [k for k in kinds if KINDS[k] != "RPHTFC" and (not only or KINDS[k] in only.split(","))]
+        return [{"name": "scale", "binary": "dict_rc", "param": "scale", "plan": [(k * NCLASS + 5, cases_quick * (4 if tier == "thorough" else 1), 60) for k in ks],
+                 "label_floors": {}, "nontrivial_floor": 8 if not only else 0}]
+    return f
+
+
 def dict_stages(kinds, quick_small, quick_large, binary="dict_rc", floors=None, nontrivial_floor=20, thorough_mult=4):
     def f(tier):
         import os
@@ -116,12 +127,13 @@ def sched_stages(prop, quick_cases, size, floors=None, nontrivial_floor=200, tho
 SPECS = {
     "C01": {
         **_meta('Generated-input search: thousands of (kind, parameter, string-set) cases per run, every member and ID of each case checked in both directions against the reference set on the built and both loaded objects; failures shrink to a replay file. Exploration is the right level: the property is universally quantified over inputs and 13 implementations, no finite model exists.', 'property-based testing (rapidcheck), reference-model round trip + bijection, ASan'),
-        "stages": dict_stages(ALL, 60, 12),
+        "stages": (lambda tier: dict_stages(ALL, 60, 12)(tier) + scale_stage(ALL, 2)(tier)),
         "rule": "case = (kind, legal parameters, string set S, object state) decoded from rapidcheck bytes; for every "
                 "state (fresh, generic-loaded, own-loaded) all members (sample of 300 above that) are located, extracted "
                 "and compared with the reference set, and all IDs are extracted, looked up in S and located back "
                 "(bijection). non-trivial = n>=2 and >=2 buckets (front coding) / n>=2 (others), conclusive and not "
-                "tainted; distinct = 64-bit hash of (kind, params, S, op bytes)",
+                "tainted; distinct = 64-bit hash of (kind, params, S, op bytes). stage 'scale': 2 cases per kind with 140 000-280 000 strings "
+                "(1-4 MB of text, default MEMALLOC, bucket size mostly 2-4, i.e. more than 2^16 buckets), 300 members / IDs sampled per state",
         "assumptions": DICT_ASSUME,
     },
     "C02": {
@@ -173,11 +185,13 @@ SPECS = {
     "C07": {
         **_meta('Everything the other dictionary drivers do (all sweeps, all states, abandoned iterators, repeated saves), plus run-time MEMALLOC 1..32768 and bucket sizes 0/1, executed under ASan (recover mode) + UBSan array-bounds/null with fatal signals and a CPU watchdog caught per call; every sanitizer report, signal or escaped exception is an event.', 'property-based testing + sanitizers as oracle (ASan/UBSan reports, caught fatal signals, CPU-time watchdog on tiny inputs)'),
         "stages": (lambda tier: dict_stages(ALL, 40, 8, floors={"memalloc_small": 200, "n_mult_bucket": 100, "maxlen_ge128": 100})(tier)
+                   + scale_stage(ALL, 2)(tier)
                    + [{"name": "perturb", "binary": "dict_plain", "param": "perturb", "plan": dict_plan(ALL, 20 * (4 if tier == "thorough" else 1), 4 * (4 if tier == "thorough" else 1)),
                        "label_floors": {"c07_perturb_pair": 300}, "nontrivial_floor": 100}]),
         "rule": "case as C01 plus MEMALLOC class and bucket clamp; non-trivial = n==1, n multiple of the bucket size, a string "
                 ">=128 bytes, a reduced MEMALLOC or an abandoned iterator; distinct = hash of the decoded case. stage 'perturb' (plain build): "
-                "60 generated queries answered by the built and by the loaded object under mallopt(M_PERTURB, 0x11) and again under 0xEE, answers compared",
+                "60 generated queries answered by the built and by the loaded object under mallopt(M_PERTURB, 0x11) and again under 0xEE, answers compared. "
+                "stage 'scale': 2 cases per kind with 140 000-280 000 strings at the default MEMALLOC (every construction buffer is reallocated for real)",
         "assumptions": DICT_ASSUME + ["leaks and new[]/delete mismatches are not reported (not part of the statement)",
                                       "memcmp over-reads that stop at a guaranteed earlier difference are not reported (strict_memcmp=0)",
                                       "uninitialised reads are visible through their effects only: answers that change with the heap fill pattern (perturb stage) and images that change with it (C08); no valgrind / MSan tier"],
